@@ -681,10 +681,21 @@ impl D<'_> {
     fn look_kind(&self, name: &str) -> String {
         match self.ns.id_by_name(name) {
             None => "?".into(),
-            Some(id) => match self.ns.node_opt(id) {
-                None => "-".into(),
-                Some(nd) => kind_of(nd).into(),
-            },
+            Some(id) => {
+                // the id found by name names that name again (and a stored node carries that id)
+                if self.ns.name_by_id(id) != Some(name) {
+                    return "!name-of-id-differs".into();
+                }
+                match self.ns.node_opt(id) {
+                    None => "-".into(),
+                    Some(nd) => {
+                        if !matches!(nd, NodeData::EnumEntry(_)) && nd.node_base().id() != id {
+                            return "!stored-under-other-id".into();
+                        }
+                        kind_of(nd).into()
+                    }
+                }
+            }
         }
     }
 }
@@ -1178,6 +1189,7 @@ const STR_CHARS: [&str; 40] = [
     ")", "[", "]", "{", "}", "!", "?", "#", "%", "*", "@", "ä", "ß", "é", "λ", "日本", "✓",
 ];
 
+const UNI_LETTERS: [char; 16] = ['é', 'Ä', 'ß', 'ø', 'ª', 'ǅ', 'ʰ', 'λ', 'Ω', 'Ж', 'я', 'ぁ', 'カ', '日', '本', '한'];
 const RESERVED: [&str; 8] = ["INF", "NaN", "Yes", "No", "true", "false", "inf", "nan"];
 
 fn float_value(s: &str) -> f64 {
@@ -1250,7 +1262,18 @@ impl<'a> Gen<'a> {
         loop {
             let len = 1 + self.rng.below(9) as usize;
             let mut s = String::new();
+            // one name in eight starts with (and may contain) a non-ASCII letter of the scripts the
+            // model's `is_alphabetic` transcription covers: such names land in the sniffed
+            // immediate-or-reference positions (pValue, pMin, pLength, ...)
+            let uni = self.rng.chance(1, 8);
+            if uni {
+                self.rep.count("name:non-ascii-first-letter");
+            }
             for i in 0..len {
+                if uni && (i == 0 || self.rng.chance(1, 4)) {
+                    s.push(*self.rng.pick(&UNI_LETTERS));
+                    continue;
+                }
                 let c = if i == 0 {
                     *self.rng.pick(b"ABCDEFGHIJKLMNOPQRSTUVWXYZabcdefghijklmnopqrstuvwxyz")
                 } else {
@@ -1315,8 +1338,11 @@ impl<'a> Gen<'a> {
             2 => self.rng.interesting_i64(),
             _ => self.rng.below(1 << 40) as i64,
         };
-        let form = if v < 0 { 0 } else { self.rng.below(6) };
+        // a negative value is written in decimal, or as the hexadecimal 64-bit pattern (bit 63 set)
+        let form = if v < 0 { if self.rng.chance(1, 3) { 6 + self.rng.below(2) } else { 0 } } else { self.rng.below(6) };
         let (s, f) = match form {
+            6 => (format!("0x{:X}", v as u64), "0x-bit63-set"),
+            7 => (format!("0X{:x}", v as u64), "0X-bit63-set"),
             0 => (v.to_string(), if v < 0 { "neg-decimal" } else { "decimal" }),
             1 => (format!("+{v}"), "plus-decimal"),
             2 => (format!("0x{:x}", v), "0x-lower"),
@@ -1368,9 +1394,80 @@ impl<'a> Gen<'a> {
     }
 
     fn lit_f64(&mut self) -> (String, f64) {
-        let s = *self.rng.pick(&FLOATS);
-        self.rep.count(&format!("float-form:{s}"));
-        (s.to_string(), float_value(s))
+        if self.rng.bool() {
+            let s = *self.rng.pick(&FLOATS);
+            self.rep.count(&format!("float-form:{s}"));
+            return (s.to_string(), float_value(s));
+        }
+        // random literal of Rust's `f64::from_str` grammar that does not start with a letter:
+        // sign? (digits | digits '.' digits? | '.' digits) ([eE] sign? digits)?
+        let mut s = String::new();
+        let mut form = String::new();
+        match self.rng.below(4) {
+            0 => {
+                s.push('-');
+                form.push('-');
+            }
+            1 => {
+                s.push('+');
+                form.push('+');
+            }
+            _ => {}
+        }
+        let digits = |rng: &mut Rng, max: u64| -> String {
+            let n = 1 + rng.below(max);
+            (0..n).map(|i| if i == 0 && rng.chance(1, 4) { '0' } else { (b'0' + rng.below(10) as u8) as char }).collect()
+        };
+        match self.rng.below(5) {
+            0 => {
+                s.push_str(&digits(self.rng, 19));
+                form.push_str("d");
+            }
+            1 => {
+                s.push_str(&digits(self.rng, 8));
+                s.push('.');
+                form.push_str("d.");
+            }
+            2 => {
+                s.push('.');
+                s.push_str(&digits(self.rng, 17));
+                form.push_str(".d");
+            }
+            _ => {
+                s.push_str(&digits(self.rng, 17));
+                s.push('.');
+                s.push_str(&digits(self.rng, 17));
+                form.push_str("d.d");
+            }
+        }
+        if self.rng.chance(2, 5) {
+            s.push(if self.rng.bool() { 'e' } else { 'E' });
+            form.push('e');
+            match self.rng.below(3) {
+                0 => {
+                    s.push('-');
+                    form.push('-');
+                }
+                1 => {
+                    s.push('+');
+                    form.push('+');
+                }
+                _ => {}
+            }
+            let e = match self.rng.below(4) {
+                0 => self.rng.below(400),
+                1 => 290 + self.rng.below(40),
+                _ => self.rng.below(30),
+            };
+            s.push_str(&e.to_string());
+        }
+        if self.rng.chance(1, 30) {
+            s = (*self.rng.pick(&["-0", "-0.0", "0e0", "+0.", "1E+5", "4.9e-324", "1.7976931348623157e308", "1.7976931348623159e308", "2.2250738585072011e-308", "9007199254740993", "0.1e-400", "1e400"])).to_string();
+            form = "special".into();
+        }
+        self.rep.count(&format!("float-form:random:{form}"));
+        let v: f64 = s.parse().unwrap();
+        (s, v)
     }
 
     fn lit_str(&mut self) -> String {
@@ -1410,6 +1507,32 @@ impl<'a> Gen<'a> {
             return vec![];
         }
         let cuts: Vec<usize> = s.char_indices().map(|c| c.0).filter(|i| *i > 0).collect();
+        if self.rng.chance(1, 25) {
+            // several comments / processing instructions: up to five text fragments
+            let k = 2 + self.rng.below(3) as usize;
+            let mut at: Vec<usize> = (0..k).map(|_| if cuts.is_empty() { 0 } else { *self.rng.pick(&cuts) }).collect();
+            at.sort_unstable();
+            let mut out = vec![];
+            let mut prev = 0;
+            for i in at {
+                if i > prev {
+                    out.push(X::T(s[prev..i].to_string()));
+                    prev = i;
+                }
+                let j = if self.rng.bool() { self.comment() } else { X::P("pi data".into()) };
+                out.push(j);
+            }
+            out.push(X::T(s[prev..].to_string()));
+            if self.rng.chance(1, 3) {
+                out.insert(0, X::P("lead".into()));
+            }
+            if self.rng.chance(1, 3) {
+                out.push(self.comment());
+            }
+            let frags = out.iter().filter(|x| matches!(x, X::T(_))).count();
+            self.rep.count(&format!("text:fragments={}", frags.min(5)));
+            return out;
+        }
         match self.rng.below(100) {
             0..=2 if !cuts.is_empty() => {
                 self.rep.count("text:comment-inside");
@@ -1448,7 +1571,8 @@ impl<'a> Gen<'a> {
         let mut it = elems.into_iter();
         for i in 0..=n {
             if self.rng.below(1000) < self.noise {
-                match self.rng.below(5) {
+                match self.rng.below(6) {
+                    5 => out.push(X::P("noise between=\"elements\"".into())),
                     0 => out.push(self.comment()),
                     1 => {
                         out.push(X::T("\n  ".into()));
@@ -1743,12 +1867,24 @@ impl<'a> Gen<'a> {
                 }
                 3 | 4 => {
                     let n = self.ref_name();
-                    let (attrs, off) = match self.rng.below(3) {
-                        0 => {
+                    let (attrs, off) = match self.rng.below(7) {
+                        0 | 1 => {
                             self.rep.count("address:pIndex");
                             (vec![], "~".to_string())
                         }
-                        1 => {
+                        2 => {
+                            // both attributes: the standard makes them alternatives; the parser
+                            // (`Option::xor`) then takes neither - pinned, not judged (assumption)
+                            self.rep.count("address:pIndex+Offset+pOffset(both: neither is used)");
+                            let (s, _) = self.lit_i64();
+                            let o = self.ref_name();
+                            let mut a = vec![("Offset".to_string(), s), ("pOffset".to_string(), o)];
+                            if self.rng.bool() {
+                                a.swap(0, 1);
+                            }
+                            (a, "~".to_string())
+                        }
+                        3 | 4 => {
                             self.rep.count("address:pIndex+Offset");
                             let (s, v) = self.lit_i64();
                             (vec![("Offset".to_string(), s)], format!("I({v})"))
@@ -2233,7 +2369,14 @@ impl<'a> Gen<'a> {
     fn gen_enum_entry(&mut self) -> Spec {
         self.pick_presence();
         self.rep.count("kind:EnumEntry");
-        let sym = self.fresh_name();
+        // symbolic names are unique only within an enumeration in real files ("Off", "On" ...):
+        // entries of different enumerations share them, the stored name `$<sym>_<k>` stays unique
+        let sym = if self.rng.chance(1, 3) {
+            self.rep.count("enum-entry:shared-symbolic");
+            self.rng.pick(&["Off", "On", "Auto", "Mode1", "Continuous"]).to_string()
+        } else {
+            self.fresh_name()
+        };
         let name = format!("${}_{}", sym, self.fresh);
         self.fresh += 1;
         let attrs = self.gen_attrs(&sym);
@@ -2836,9 +2979,10 @@ fn is_i64_field(tag: &str, parent: &str) -> bool {
         || (matches!(tag, "Value" | "Min" | "Max" | "Inc") && matches!(parent, "Integer" | "EnumEntry" | "Command"))
 }
 
-const MUTATIONS: [&str; 14] = [
-    "unknown-enum-literal", "missing-mandatory", "empty-numeric", "hex-over-i64", "negative-in-u64", "order-swapped",
-    "duplicate-name", "unknown-top-tag", "dcam-tag", "spaces-around-number", "missing-name", "bad-bool",
+const MUTATIONS: [&str; 16] = [
+    "struct-child-not-entry", "symbol-first-in-sniffed",
+    "unknown-enum-literal", "missing-mandatory", "empty-numeric", "int-out-of-range", "negative-in-u64", "order-swapped",
+    "duplicate-name", "unknown-top-tag", "unsupported-dcam-kind", "spaces-around-number", "missing-name", "bad-bool",
     "missing-root-attr", "bad-attr-literal",
 ];
 
@@ -2855,6 +2999,21 @@ fn mutate(root: &mut X, want: &str, rng: &mut Rng) -> String {
         }
     };
     let done = match want {
+        // a StructReg child that is no StructEntry: debug assertion in the dev profile, parsed
+        // like an entry in the release profile
+        "struct-child-not-entry" => pick(rng, &|e| e.1 == "StructEntry").map(|p| {
+            if let X::E { tag, .. } = at_mut(root, &p) {
+                *tag = rng.pick(&["Entry", "MaskedIntReg", "StructEntri"]).to_string();
+            }
+        }),
+        // a non-ASCII, non-alphabetic first character where the parser sniffs immediate/reference
+        "symbol-first-in-sniffed" => pick(rng, &|e| {
+            matches!(e.1.as_str(), "pValue" | "pMin" | "pMax" | "pInc" | "pLength" | "pAddress" | "Value" | "Min" | "Max" | "Length")
+                && matches!(e.2.as_str(), "Integer" | "Float" | "IntReg" | "MaskedIntReg" | "FloatReg" | "StringReg" | "Register" | "Command" | "Boolean")
+        })
+        .map(|p| {
+            set_text(at_mut(root, &p), *rng.pick(&["✓ok", "€5", "→x", "½", "٣"]));
+        }),
         "unknown-enum-literal" => pick(rng, &|e| ENUM_TAGS.contains(&e.1.as_str())).map(|p| {
             set_text(at_mut(root, &p), *rng.pick(&["Bogus", "ro", "beginner", "Maybe"]));
         }),
@@ -2873,8 +3032,8 @@ fn mutate(root: &mut X, want: &str, rng: &mut Rng) -> String {
         }),
         "empty-numeric" => pick(rng, &|e| is_i64_field(&e.1, &e.2) || U64_TAGS.contains(&e.1.as_str()) || e.1 == "EventID")
             .map(|p| set_text(at_mut(root, &p), "")),
-        "hex-over-i64" => pick(rng, &|e| is_i64_field(&e.1, &e.2)).map(|p| {
-            set_text(at_mut(root, &p), *rng.pick(&["0x8000000000000000", "0xFFFFFFFFFFFFFFFF", "9223372036854775808", "0x10000000000000000"]));
+        "int-out-of-range" => pick(rng, &|e| is_i64_field(&e.1, &e.2)).map(|p| {
+            set_text(at_mut(root, &p), *rng.pick(&["0x10000000000000000", "0x1FFFFFFFFFFFFFFFF", "9223372036854775808", "-9223372036854775809", "0x-8000000000000001"]));
         }),
         "negative-in-u64" => pick(rng, &|e| U64_TAGS.contains(&e.1.as_str())).map(|p| {
             set_text(at_mut(root, &p), *rng.pick(&["-5", "-1", "-0x5"]));
@@ -2983,13 +3142,14 @@ fn mutate(root: &mut X, want: &str, rng: &mut Rng) -> String {
     if done.is_some() {
         return want.to_string();
     }
-    // DCAM tags: always applicable
+    // The five DCAM (IIDC) element kinds of the schema are outside the 20 kinds the crate supports
+    // (`todo!()` in the dispatch): pinned as a panic on both sides, listed as an assumption.
     let tag = *rng.pick(&["ConfRom", "TextDesc", "IntKey", "AdvFeatureLock", "SmartFeature"]);
     if let X::E { children, .. } = root {
         let pos = rng.below(children.len() as u64 + 1) as usize;
         children.insert(pos, xe(tag, vec![("Name".into(), "Dcam1".into())], vec![]));
     }
-    "dcam-tag".into()
+    "unsupported-dcam-kind".into()
 }
 
 // ---------------------------------------------------------------------------------------
@@ -3297,6 +3457,7 @@ fn main() {
         return;
     }
 
+    alpha_sweep(&mut rep);
     for (name, x) in fixed_cases() {
         let looks = vec!["A".to_string(), "B".to_string(), "N".to_string(), "Dev".to_string(), "E0".to_string(), "zz".to_string()];
         let xml = render_doc(&x, &mut rng);
